@@ -150,6 +150,16 @@ class Harness:
                     got.append(None)
                     env.get_random_agent(*targs, **kw)
                     env.shuffle(*targs, **kw)
+                    if tag is None:       # the deprecated spellings take a template only
+                        old = env.getAgents(*targs)
+                        if [self._key(w, a) for a in old] != self._ref(w, tmpl, None):
+                            raise Violation(f'residents {w.order} template {list(tmpl)}: getAgents (deprecated spelling) '
+                                            f'differs from the exact filter', expected=self._ref(w, tmpl, None),
+                                            observed=[self._key(w, a) for a in old])
+                        one = env.getRandomAgent(*targs)
+                        if (one is None) != (not self._ref(w, tmpl, None)) or \
+                                (one is not None and self._key(w, one) not in self._ref(w, tmpl, None)):
+                            raise Violation(f'residents {w.order} template {list(tmpl)}: getRandomAgent outside the filter')
             return
         if op[0] == 'add':
             w.model.environment.add_agent(w.agents[op[1]])
